@@ -143,6 +143,27 @@ func c18HuffmanTotal(B int) {
 	}
 }
 
+// a valid encoding followed by one more arbitrary byte, at every bit alignment: accepted only if
+// the whole input is itself the canonical encoding of what was decoded (no symbol may be
+// swallowed as padding, no 8-bit padding accepted)
+func VerifC18_huffman_trailing() {
+	prefix := []string{"", "0", "00", "000", "0000", "00000", "000000", "0000000"}[vRange("alignment", 0, 7)]
+	sym := []byte{'0', 'b', 'j', '&', 0x00}[vRange("symbolClass", 0, 4)] // 5, 6, 7, 8 and 13 bit codes
+	enc := AppendHuffmanString(nil, prefix+string([]byte{sym}))
+	v := append(append([]byte{}, enc...), vU8("extra"))
+	var buf bytes.Buffer
+	var err error
+	if vCatch(func() { err = huffmanDecode(&buf, 0, v) }) {
+		vFail("huffman-no-panic")
+		return
+	}
+	vReach("huffman-trailing-byte")
+	if err == nil {
+		re := AppendHuffmanString(nil, buf.String())
+		vAssert(string(re) == string(v), "huffman-accepts-only-canonical-encodings")
+	}
+}
+
 // ---- dynamic table step: size accounting, oldest-first minimal eviction, search/at consistency
 func c18Field(tag string) HeaderField {
 	return HeaderField{Name: "n" + vString(tag+".name", vRange(tag+".nameLen", 0, 1)), Value: vString(tag+".value", vRange(tag+".valueLen", 0, 2))}
@@ -275,3 +296,49 @@ func c18Roundtrip() {
 }
 
 func VerifC18_roundtrip() { c18Roundtrip() }
+
+
+// encoder -> decoder over a schedule of table-size changes and fields (concrete fields, symbolic
+// sizes): after every field the decoder has emitted exactly that field and both tables agree.
+func c18Schedule(K int) {
+	var out c18Sink
+	e := NewEncoder(&out)
+	var emitted []HeaderField
+	d := NewDecoder(4096, func(f HeaderField) { emitted = append(emitted, f) })
+	fields := []HeaderField{{Name: "xa", Value: "\x81"}, {Name: "xb", Value: "\x82\x83"}, {Name: "xa", Value: "\x81"}, {Name: "xc", Value: ""}}
+	nf := 0
+	for i := 0; i < K; i++ {
+		if vBool(vName("resize", i)) {
+			v := vU32(vName("size", i))
+			vAssume(v <= 200)
+			e.SetMaxDynamicTableSize(v)
+			continue
+		}
+		f := fields[nf%len(fields)]
+		nf++
+		out.Reset()
+		emitted = nil
+		if e.WriteField(f) != nil {
+			vFail("encoder-no-error")
+			return
+		}
+		var werr error
+		if vCatch(func() { _, werr = d.Write(out.Bytes()) }) {
+			vFail("decoder-no-panic")
+			return
+		}
+		vAssert(werr == nil && d.Close() == nil, "decoder-accepts-encoder-output")
+		if len(emitted) != 1 {
+			vFail("exactly-one-field-emitted")
+			return
+		}
+		vAssert(emitted[0].Name == f.Name && emitted[0].Value == f.Value, "field-preserved")
+		et, dt := &e.dynTab, &d.dynTab
+		vAssert(et.size == dt.size && et.maxSize == dt.maxSize && et.table.len() == dt.table.len(), "tables-same-shape")
+		vAssert(dt.size <= dt.maxSize, "table-never-exceeds-limit")
+	}
+	vReach("schedule-done")
+}
+
+func VerifC18_schedule_quick()    { c18Schedule(6) }
+func VerifC18_schedule_thorough() { c18Schedule(8) }
